@@ -1887,3 +1887,125 @@ def unoption_or_chain(f):
     if n:
         f.rewrites.append(('R6', f'{n}x `opt.or_else(|| E)` / `opt.unwrap_or_else(|| E)` / `opt.unwrap_or(E)` -> match (E verbatim)', ''))
     return f
+
+
+def pull_pure_type_helpers(u, relpath, type_name, known=()):
+    """R14: the methods of the inherent `impl TYPE { .. }` blocks of `relpath` that the unit does not know (`known`) and whose bodies are pure
+    (no loop, no `&mut`, no `?`): each is emitted TWICE from the same text -- as `open spec fn NAME_spec` and as the executable `fn NAME` with the
+    mechanically derived strongest postcondition `ret == NAME_spec(args)` -- so that a key / accessor helper introduced next to a function under contract
+    is reasoned about by its body, not refused (unit does not build) and not havocked (no contract).  Returns the rendered text of an `impl TYPE` block ('' if nothing)."""
+    from .extract import REPO, strip_comments
+    import os
+    try:
+        src = strip_comments(open(os.path.join(REPO, relpath)).read())
+    except OSError:
+        return ''
+    names = []
+    for m in re.finditer(r'\bimpl\s+' + re.escape(type_name) + r'\s*\{', src):
+        close = match_brace(src, m.end() - 1)
+        for fm in re.finditer(r'\bfn\s+(\w+)', src[m.end():close]):
+            if fm.group(1) not in known and fm.group(1) not in names:
+                names.append(fm.group(1))
+    out = []
+    for nm in names:
+        try:
+            f = u.extract(relpath, r'impl\s+' + re.escape(type_name) + r'\s*\{?$|impl ' + re.escape(type_name) + r'\b(?!.*\bfor\b)', nm, f'{type_name}::{nm}[pure helper, derived postcondition]')
+        except ExtractError:
+            continue
+        if re.search(r'\b(for|while|loop)\b|&mut\b|\?', f.body):
+            continue
+        sig = re.sub(r'^(pub(\([a-z]+\))?\s+)?(const\s+)?', '', f.sig.strip())
+        sig = re.sub(r'\bSelf\b', type_name, sig)
+        body = re.sub(r'\bSelf\b', type_name, f.body)
+        mp = re.match(r'fn\s+(\w+)\s*\((.*)\)\s*->\s*(.+)$', sig, flags=re.S)
+        if not mp:
+            continue
+        params = [p.strip() for p in _split_top_commas(mp.group(2)) if p.strip()]
+        args = []
+        for p in params:
+            if re.fullmatch(r'&?\s*self', p):
+                continue
+            args.append(p.split(':', 1)[0].strip())
+        recv = 'self.' if params and re.fullmatch(r'&?\s*self', params[0]) else f'{type_name}::'
+        f.sig, f.body = sig, body
+        f.rewrites.append(('R14', f'the same text is also emitted as `open spec fn {nm}_spec`; the executable function gets the postcondition ret == {nm}_spec(..)', 'pure helper: no loop, no &mut, no ?'))
+        f.ensures('is_its_own_body_read_as_a_specification', f'ret == {recv}{nm}_spec({", ".join(args)})')
+        spec = f'pub open spec fn {nm}_spec({mp.group(2)}) -> {mp.group(3)}\n{body}'
+        out.append(spec + '\n' + f.render('pub'))
+    if not out:
+        return ''
+    return 'verus! {\nimpl ' + type_name + ' {\n' + '\n'.join(out) + '\n}\n}\n'
+
+
+def unthen_some(f):
+    """R6: `(COND).then_some(V)` -> `(if COND { Some(V) } else { None })`"""
+    n = 0
+    while True:
+        m = re.search(r'\)\s*\.\s*then_some(\()', f.body)
+        if not m:
+            break
+        # the parenthesised condition ends at m.start(): find its opening parenthesis
+        depth, i = 0, m.start()
+        while i >= 0:
+            if f.body[i] == ')':
+                depth += 1
+            elif f.body[i] == '(':
+                depth -= 1
+                if depth == 0:
+                    break
+            i -= 1
+        if i < 0:
+            break
+        close = match_brace(f.body, m.start(1))
+        cond = f.body[i + 1:m.start()].strip()
+        val = f.body[m.start(1) + 1:close].strip()
+        f.body = f.body[:i] + f'(if {cond} {{ Some({val}) }} else {{ None }})' + f.body[close + 1:]
+        n += 1
+    if n:
+        f.rewrites.append(('R6', f'{n}x `(cond).then_some(v)` -> if/else', ''))
+    return f
+
+
+def unoption_and_then(f):
+    """R6: `RECV.and_then(|x| BODY)` -> `(match RECV { Some(x) => BODY, None => None })` (BODY verbatim: an expression or a block)"""
+    n = 0
+    while True:
+        m = re.search(r'\.\s*and_then(\()', f.body)
+        if not m:
+            break
+        close = match_brace(f.body, m.start(1))
+        mi = re.match(r'\s*\|\s*(\w+)\s*\|\s*(.*)$', f.body[m.start(1) + 1:close], flags=re.S)
+        st = _receiver_start(f.body, m.start())
+        if not mi or st < 0:
+            break
+        recv = f.body[st:m.start()].strip()
+        f.body = f.body[:st] + f'(match {recv} {{ Some({mi.group(1)}) => {mi.group(2).strip().rstrip(",").strip()}, None => None }})' + f.body[close + 1:]
+        n += 1
+    if n:
+        f.rewrites.append(('R6', f'{n}x `opt.and_then(|x| BODY)` -> match (BODY verbatim)', ''))
+    return f
+
+
+def uncollect_option_vec(f):
+    """R5: `let X: Option<Vec<T>> = S.iter().map(|&c| BODY).collect();` (collect into an Option: None as soon as one element gives None) ->
+    `let mut X_v_: Vec<T> = Vec::new(); let mut X_ok_ = true; for X_k_ in 0..S.len() { let c = S[X_k_]; match BODY { Some(v_) => { X_v_.push(v_); }, None => { X_ok_ = false; break; } } }
+     let X = if X_ok_ { Some(X_v_) } else { None };`"""
+    n = 0
+    while True:
+        m = re.search(r'let (\w+): Option<Vec<([^>]+)>> = (\w+)\s*\.iter\(\)\s*\.map(\()', f.body)
+        if not m:
+            break
+        close = match_brace(f.body, m.start(4))
+        mi = re.match(r'\s*\|\s*&(\w+)\s*\|\s*(.*)$', f.body[m.start(4) + 1:close], flags=re.S)
+        me = re.match(r'\s*\.collect\(\)\s*;', f.body[close + 1:])
+        if not mi or not me:
+            break
+        x, ty, src = m.group(1), m.group(2).strip(), m.group(3)
+        body = mi.group(2).strip().rstrip(',').strip()
+        new = (f'let mut {x}_v_: Vec<{ty}> = Vec::new(); let mut {x}_ok_ = true; for {x}_k_ in 0..{src}.len() {{ let {mi.group(1)} = {src}[{x}_k_]; '
+               f'match {body} {{ Some(v_) => {{ {x}_v_.push(v_); }}, None => {{ {x}_ok_ = false; break; }} }} }} let {x} = if {x}_ok_ {{ Some({x}_v_) }} else {{ None }};')
+        f.body = f.body[:m.start()] + new + f.body[close + 1 + me.end():]
+        n += 1
+    if n:
+        f.rewrites.append(('R5', f'{n}x `let X: Option<Vec<T>> = s.iter().map(|&c| BODY).collect();` -> index loop with early exit (BODY verbatim)', ''))
+    return f
